@@ -20,20 +20,35 @@ def main():
     patch = os.path.abspath(sys.argv[1])
     pids = sys.argv[2:] or ["C%02d" % i for i in range(1, 21)]
     tier = os.environ.get("VERIF_TIER", "quick")
-    st = sh(["git", "-C", REPO, "status", "--porcelain", "--untracked-files=no"]).stdout.strip()
-    if st:
-        print("refusing: /repo has local changes:\n" + st)
-        return 2
-    r = sh(["git", "-C", REPO, "apply", patch])
+    # VERIF_SEED_WT=<dir>: work in a scratch worktree of /repo's HEAD instead of /repo itself
+    # (for use while something else, e.g. a `vp run`, reads /repo); the checks follow SBDF_REPO
+    wt = os.environ.get("VERIF_SEED_WT")
+    target = REPO
+    env = dict(os.environ, VERIF_EVIDENCE_DIR=os.path.join(ROOT, ".cache", "seed-evidence"))
+    if wt:
+        sh(["git", "-C", REPO, "worktree", "remove", "--force", wt])
+        r = sh(["git", "-C", REPO, "worktree", "add", "--detach", wt, "HEAD"])
+        if r.returncode != 0:
+            print("cannot create worktree: " + r.stdout)
+            return 2
+        target = wt
+        env["SBDF_REPO"] = wt
+    else:
+        st = sh(["git", "-C", REPO, "status", "--porcelain", "--untracked-files=no"]).stdout.strip()
+        if st:
+            print("refusing: /repo has local changes:\n" + st)
+            return 2
+    r = sh(["git", "-C", target, "apply", patch])
     if r.returncode != 0:
         print("patch does not apply: " + r.stdout)
+        if wt:
+            sh(["git", "-C", REPO, "worktree", "remove", "--force", wt])
         return 2
     out = {}
     try:
         for pid in pids:
             t0 = time.time()
-            r = sh(["python3", os.path.join(ROOT, "check.py"), pid, "--tier", tier], cwd=ROOT,
-                   env=dict(os.environ, VERIF_EVIDENCE_DIR=os.path.join(ROOT, ".cache", "seed-evidence")))
+            r = sh(["python3", os.path.join(ROOT, "check.py"), pid, "--tier", tier], cwd=ROOT, env=env)
             lines = [l for l in r.stdout.splitlines() if l.startswith("VIOLATION") or l.startswith("violation:")]
             v = [l for l in lines if l.startswith("VIOLATION")]
             why = [l for l in r.stdout.splitlines() if l.startswith("violation:")]
@@ -42,8 +57,12 @@ def main():
             print("%s rc=%d violations=%d (no-failing-input-found: %d) %.0fs  %s" % (
                 pid, r.returncode, len(v), out[pid]["nofail"], out[pid]["secs"], out[pid]["first"][:200]), flush=True)
     finally:
-        sh(["git", "-C", REPO, "checkout", "--", "."])
-        sh(["git", "-C", REPO, "clean", "-fdq", "--", "src", "include"])   # files a patch added
+        if wt:
+            sh(["git", "-C", REPO, "worktree", "remove", "--force", wt])
+            sh(["git", "-C", REPO, "worktree", "prune"])
+        else:
+            sh(["git", "-C", REPO, "checkout", "--", "."])
+            sh(["git", "-C", REPO, "clean", "-fdq", "--", "src", "include"])   # files a patch added
         sh(["python3", os.path.join(ROOT, "tools", "extract.py")])
     print(json.dumps(out))
     return 0
